@@ -207,7 +207,7 @@ def geometry_dvs(env, nx, ny):
         xf = ext_nodes(x) if node_dv else x
         outh = h.compute({dv: x, "in_mesh": mh})["mesh"]
         outf = f.compute({dv: xf, "in_mesh": mf})["mesh"]
-        env.eq("C04", "%s: full-span result is the mirror extension of the half-span result" % klass, outf, mirror_extend_mesh(outh))
+        env.eq("C04,C07", "%s: full-span result is the mirror extension of the half-span result" % klass, outf, mirror_extend_mesh(outh))
 
     pair("Sweep", "sweep")
     pair("Dihedral", "dihedral")
@@ -217,12 +217,12 @@ def geometry_dvs(env, nx, ny):
     pair("ShearZ", "zshear", node_dv=True)
     pair("Rotate", "twist", node_dv=True, ref_axis_pos=0.25)
     # Taper reads the planform from its options: concrete mirror-symmetric planform, all taper ratios
-    ch = mkmesh(nx, ny, True, "left")
+    ch = mkmesh(nx, ny, True, "left", span=4.6)            # a half span that is not a whole number
     cf = np.concatenate([ch, (ch[:, :-1, :] * SM)[:, ::-1, :]], axis=1)
     th = env.comp("TaperH", lambda: cls(GT + "Taper")(val=1.0, mesh=ch.copy(), symmetry=True, ref_axis_pos=0.25))
     tf = env.comp("TaperF", lambda: cls(GT + "Taper")(val=1.0, mesh=cf.copy(), symmetry=False, ref_axis_pos=0.25))
     t = env.var("taper", (1,))
-    env.eq("C04", "Taper: full-span result is the mirror extension of the half-span result",
+    env.eq("C04,C07", "Taper: full-span result is the mirror extension of the half-span result",
            tf.compute(dict(taper=t))["mesh"], mirror_extend_mesh(th.compute(dict(taper=t))["mesh"]))
 
 
